@@ -6,8 +6,16 @@ Components (each: real code vs compiled Lean model on the same inputs + an imple
   params     encode_params / decode_params
   reconfig   the three RE-CONFIG parameter classes
   parse      parse_packet on malformed packets (valid checksum unless stated): never crashes / hangs, idempotent
+  ops        sequences of create / overwrite / owner-modifies / serialise / parse steps on a pool of LIVE objects,
+             step by step against the pure model (Model/Sctp/WireOps.lean): any divergence is hidden state
   burst      one burst of <= 32 altered bits in an accepted packet must be rejected (straddling the
              checksum field: known finding C08-crc-straddle)
+
+Round 2: the codec is a set of pure functions in the model but a set of mutable objects in Python.  Every parse case
+(roundtrip, params, reconfig, parse) is evaluated twice with a hostile owner in between who modifies every mutable
+part of the first result (`hostile_obj`); most serialise cases re-use an object that carried and serialised the
+values of another case before (`prev`); `ops` mixes both in random sequences.  All of this runs in forked children
+(`Isolated`) so that a shrunk / replayed case never depends on what an earlier case left behind.
 """
 from __future__ import annotations
 
@@ -17,7 +25,8 @@ import struct
 from harness.check import Component
 from harness import core
 
-LEAN_TARGETS = ["Aiortc.Props.C08"]
+LEAN_TARGETS = ["Aiortc.Props.C08", "Aiortc.Props.C08Ops"]
+AUDIT_PROPS = ["C08", "C08Ops"]
 DRIVERS = ["SctpWire"]
 MANIFEST = {
     "technique": "Lean 4 theorems over an executable model of the SCTP wire codec and a bitwise CRC-32C "
@@ -29,7 +38,11 @@ MANIFEST = {
             "CRC-32C burst theorem: any non-zero error confined to <= 32 consecutive bit positions (CRC order) of an "
             "accepted packet of ANY length that lies entirely outside or entirely inside the checksum field makes "
             "parse_packet raise ValueError. Bursts straddling the checksum field can pass (inherent in RFC 4960): "
-            "C08_full_false is proved from a 16-byte witness and replayed on the real parser every run.",
+            "C08_full_false is proved from a 16-byte witness and replayed on the real parser every run. "
+            "Props/C08Ops: over a pool of live objects with an arbitrary history (objects re-used, overwritten, results "
+            "modified by their owner), serialising observes the current field values only, parsing observes the bytes "
+            "only, and the round trip holds for re-used objects (ops_reuse_roundtrip); compared step by step with the "
+            "real objects.",
     "note": "The model is of the code after fixes/C08-*.patch (zero parameter length, short chunk bodies and short "
             "RE-CONFIG parameters are ValueError instead of a hang / struct.error); the pinned behaviour is kept as "
             "the `fixed = false` variants of the same Lean functions.",
@@ -57,6 +70,10 @@ RULE = ("chunks are built with the repo's own classes from boundary-biased field
         "malformed packets are derived from valid ones (every class x every body length 0..24, truncated / inflated "
         "length fields, zero / short parameter lengths, unknown types, garbage) with the CRC recomputed; bursts: every "
         "length 1..32, positions biased to the checksum-field boundaries, random interior pattern; "
+        "purity: every parse is done twice with the first result modified in between (ints, bytes, lists in place), two "
+        "thirds of the serialise cases re-use an object that was serialised with other values, op sequences of 4..30 "
+        "steps over 4 slots mix both (value sweeps on one object, interleaved objects of one class, sibling packets with "
+        "byte-identical parameter bodies); "
         "distinct = distinct canonical case")
 
 PLAIN = ["CookieEchoChunk", "CookieAckChunk", "ShutdownAckChunk", "ShutdownCompleteChunk"]
@@ -158,33 +175,157 @@ def show_nats(l):
     return ",".join(str(x) for x in l) if l else "-"
 
 
+# spec key -> (public attribute, modulus) of the integer fields; list fields; bytes fields (per class)
+_INIT_INTS = [("tag", "initiate_tag", 2**32), ("rwnd", "advertised_rwnd", 2**32), ("outs", "outbound_streams", 65536),
+              ("ins", "inbound_streams", 65536), ("itsn", "initial_tsn", 2**32)]
+INT_FIELDS = {"DataChunk": [("tsn", "tsn", 2**32), ("sid", "stream_id", 65536), ("sseq", "stream_seq", 65536),
+                            ("proto", "protocol", 2**32)],
+              "InitChunk": _INIT_INTS, "InitAckChunk": _INIT_INTS,
+              "SackChunk": [("ctsn", "cumulative_tsn", 2**32), ("rwnd", "advertised_rwnd", 2**32)],
+              "ShutdownChunk": [("ctsn", "cumulative_tsn", 2**32)], "ForwardTsnChunk": [("ctsn", "cumulative_tsn", 2**32)]}
+LIST_FIELDS = {"SackChunk": [("gaps", "gaps", "pair"), ("dups", "duplicates", "u32")],
+               "ForwardTsnChunk": [("streams", "streams", "pair")]}
+BYTES_FIELDS = {"DataChunk": [("ud", "user_data")]}
+for _n in ["CookieEchoChunk", "CookieAckChunk", "ShutdownAckChunk", "ShutdownCompleteChunk"]:
+    BYTES_FIELDS[_n] = [("body", "body")]
+for _n in ["HeartbeatChunk", "HeartbeatAckChunk", "AbortChunk", "ErrorChunk", "ReconfigChunk", "InitChunk", "InitAckChunk"]:
+    LIST_FIELDS[_n] = [("params", "params", "param")]
+
+
+def _elem(kind, x):
+    """spec element -> the Python value the library stores."""
+    if kind == "param":
+        return (x[0], unhx(x[1]))
+    if kind == "pair":
+        return (x[0], x[1])
+    return x
+
+
+def assign_fields(c, spec):
+    """Overwrite every public wire field of the LIVE object `c` with the values of `spec` (same class)."""
+    name = spec["cls"]
+    c.flags = spec["flags"]
+    for key, attr, _ in INT_FIELDS.get(name, []):
+        setattr(c, attr, spec[key])
+    for key, attr in BYTES_FIELDS.get(name, []):
+        setattr(c, attr, unhx(spec[key]))
+    for key, attr, kind in LIST_FIELDS.get(name, []):
+        setattr(c, attr, [_elem(kind, x) for x in spec[key]])
+    return c
+
+
 def build_chunk(spec):
     m = _m()
     name = spec["cls"]
     cls = getattr(m, name)
-    f = spec["flags"]
     if name in PLAIN:
-        return cls(flags=f, body=unhx(spec["body"]))
-    c = cls(flags=f)
-    if name in PARAMS:
-        c.params = [(t, unhx(v)) for t, v in spec["params"]]
+        return cls(flags=spec["flags"], body=unhx(spec["body"]))
+    return assign_fields(cls(flags=spec["flags"]), spec)
+
+
+# ---- the hostile owner (mirrors Model/Sctp/WireOps.lean `hostile*`) -------------------------------------
+# every mutable part of an object is changed as a function of k: ints += k (mod field width), bytes get one
+# more byte, lists are cleared (k%3 = 0) / appended to (1) / get their first element overwritten (2) -
+# IN PLACE when (k//3) is even (the idiom `chunk.params.append(...)` of the library), by assigning a new
+# list otherwise.
+
+def hostile_elem(kind, k):
+    if kind == "param":
+        return [k % 65536, hx(bytes([k % 256]) * (k % 5))]
+    if kind == "pair":
+        return [k % 65536, (k + 1) % 65536]
+    if kind == "u16":
+        return k % 65536
+    return k % 2**32
+
+
+def hostile_list_spec(k, x, l):
+    if k % 3 == 0:
+        return []
+    if k % 3 == 1:
+        return list(l) + [x]
+    return [x] + list(l[1:])
+
+
+def hostile_list_obj(obj, attr, k, x):
+    cur = getattr(obj, attr)
+    if (k // 3) % 2 == 0:
+        try:
+            if k % 3 == 0:
+                cur.clear()
+            elif k % 3 == 1 or len(cur) == 0:
+                cur.append(x)
+            else:
+                cur[0] = x
+            return
+        except (AttributeError, TypeError):
+            pass  # an immutable sequence: the owner can only replace it
+    setattr(obj, attr, hostile_list_spec(k, x, list(cur)))
+
+
+def hostile_spec(spec, k):
+    """The value an object with the fields of `spec` has after the hostile owner (pure, on specs)."""
+    name = spec["cls"]
+    out = dict(spec, flags=(spec["flags"] + k) % 256)
+    for key, _, mod in INT_FIELDS.get(name, []):
+        out[key] = (spec[key] + k) % mod
+    for key, _ in BYTES_FIELDS.get(name, []):
+        out[key] = hx(unhx(spec[key]) + bytes([k % 256]))
+    for key, _, kind in LIST_FIELDS.get(name, []):
+        out[key] = hostile_list_spec(k, hostile_elem(kind, k), [list(x) if isinstance(x, (list, tuple)) else x for x in spec[key]])
+    return out
+
+
+def hostile_obj(c, k):
+    """The same change on a live object of the library, through its public attributes only."""
+    name = type(c).__name__
+    c.flags = (c.flags + k) % 256
+    for _, attr, mod in INT_FIELDS.get(name, []):
+        setattr(c, attr, (getattr(c, attr) + k) % mod)
+    for _, attr in BYTES_FIELDS.get(name, []):
+        setattr(c, attr, bytes(getattr(c, attr)) + bytes([k % 256]))
+    for _, attr, kind in LIST_FIELDS.get(name, []):
+        hostile_list_obj(c, attr, k, _elem(kind, hostile_elem(kind, k)))
+
+
+# ---- independent reference encoder (RFC 4960 §3 / RFC 3758 / RFC 6525 wire layout, straight from a spec) --
+
+def ref_params(ps) -> bytes:
+    out = b""
+    for i, (t, v) in enumerate(ps):
+        b = unhx(v)
+        out += struct.pack("!HH", t, len(b) + 4) + b
+        if i < len(ps) - 1:
+            out += bytes((-len(b)) % 4)
+    return out
+
+
+def ref_chunk(spec) -> bytes:
+    name = spec["cls"]
+    if name in PLAIN:
+        body = unhx(spec["body"])
+    elif name in PARAMS:
+        body = ref_params(spec["params"])
     elif name == "DataChunk":
-        c.tsn, c.stream_id, c.stream_seq, c.protocol = spec["tsn"], spec["sid"], spec["sseq"], spec["proto"]
-        c.user_data = unhx(spec["ud"])
+        body = struct.pack("!LHHL", spec["tsn"], spec["sid"], spec["sseq"], spec["proto"]) + unhx(spec["ud"])
     elif name in INIT:
-        c.initiate_tag, c.advertised_rwnd = spec["tag"], spec["rwnd"]
-        c.outbound_streams, c.inbound_streams, c.initial_tsn = spec["outs"], spec["ins"], spec["itsn"]
-        c.params = [(t, unhx(v)) for t, v in spec["params"]]
+        body = struct.pack("!LLHHL", spec["tag"], spec["rwnd"], spec["outs"], spec["ins"], spec["itsn"]) + ref_params(spec["params"])
     elif name == "SackChunk":
-        c.cumulative_tsn, c.advertised_rwnd = spec["ctsn"], spec["rwnd"]
-        c.gaps = [tuple(g) for g in spec["gaps"]]
-        c.duplicates = list(spec["dups"])
+        body = struct.pack("!LLHH", spec["ctsn"], spec["rwnd"], len(spec["gaps"]), len(spec["dups"]))
+        body += b"".join(struct.pack("!HH", a, b) for a, b in spec["gaps"]) + b"".join(struct.pack("!L", t) for t in spec["dups"])
     elif name == "ShutdownChunk":
-        c.cumulative_tsn = spec["ctsn"]
-    elif name == "ForwardTsnChunk":
-        c.cumulative_tsn = spec["ctsn"]
-        c.streams = [tuple(s) for s in spec["streams"]]
-    return c
+        body = struct.pack("!L", spec["ctsn"])
+    else:
+        body = struct.pack("!L", spec["ctsn"]) + b"".join(struct.pack("!HH", a, b) for a, b in spec["streams"])
+    return struct.pack("!BBH", RFC_TYPE[name], spec["flags"], len(body) + 4) + body + bytes((-len(body)) % 4)
+
+
+def ref_packet(sp, dp, tag, specs) -> bytes:
+    return fix_crc(struct.pack("!HHL", sp, dp, tag) + b"\0\0\0\0" + b"".join(ref_chunk(x) for x in specs))
+
+
+def header_in_range(sp, dp, tag) -> bool:
+    return 0 <= sp < 65536 and 0 <= dp < 65536 and 0 <= tag < 2**32
 
 
 def chunk_str(c) -> str:
@@ -387,6 +528,60 @@ def shrink_spec(spec):
     return out
 
 
+# ---- isolation -----------------------------------------------------------------------------------------
+# Cases now contain a hostile owner who modifies what the library returned.  If the library keeps hidden state
+# (a memo, a shared list) that state must not leak from one evaluation into the next one, otherwise a shrunk or
+# replayed case would fail (or pass) because of what an EARLIER case did.  All evaluations of such components
+# therefore run in a forked child: the bulk of a run in one child, every single evaluation (shrinking, replay) in
+# its own child.  The parent never runs a hostile step, so every child starts from a clean library state.
+
+class Isolated(Component):
+    def _impl(self, case) -> str:
+        raise NotImplementedError
+
+    def _impl_all(self, cases):
+        outs = []
+        for c in cases:
+            try:
+                outs.append(self._impl(c))
+            except Exception as exc:
+                outs.append("HARNESS-EXC " + type(exc).__name__ + ": " + str(exc)[:200])
+        return outs
+
+    def impl_many(self, cases):
+        import json
+        import os
+        _m()  # import the library in the parent (children inherit it)
+        try:
+            r, w = os.pipe()
+            pid = os.fork()
+        except OSError:
+            return self._impl_all(cases)
+        if pid == 0:
+            code = 1
+            try:
+                os.close(r)
+                data = json.dumps(self._impl_all(cases)).encode()
+                with os.fdopen(w, "wb") as f:
+                    f.write(data)
+                code = 0
+            finally:
+                os._exit(code)
+        os.close(w)
+        with os.fdopen(r, "rb") as f:
+            data = f.read()
+        os.waitpid(pid, 0)
+        try:
+            outs = json.loads(data.decode())
+            assert len(outs) == len(cases)
+            return outs
+        except Exception:
+            return ["HARNESS-EXC child process failed"] * len(cases)
+
+    def impl(self, case):
+        return self.impl_many([case])[0]
+
+
 # ---- components ----------------------------------------------------------------------------------------
 
 class Crc(Component):
@@ -425,7 +620,7 @@ class Crc(Component):
         return [{"d": hx(x)} for x in (b[: len(b) // 2], b[1:], b[:-1]) if x != b]
 
 
-class Roundtrip(Component):
+class Roundtrip(Isolated):
     name = "roundtrip"
     theorems = ["packet_roundtrip", "packet_reserialize", "serialize_wf"]
 
@@ -459,6 +654,12 @@ class Roundtrip(Component):
         for _ in range(12 if tier == "quick" else 300):
             sp, dp, tag = gen_header(rng)
             out.append({"sp": sp, "dp": dp, "tag": tag, "chunk": gen_spec(rng, None, big=True)})
+        # object re-use: two thirds of the cases serialise an object that carried (and serialised) the values of
+        # another generated case of the same class before; every case has a hostile owner between two parses
+        for c in out:
+            if rng.random() < 0.67:
+                c["prev"] = gen_spec(rng, c["chunk"]["cls"], big=False, over=0.02)
+            c["k"] = rng.randrange(1, 13)
         return out
 
     def model_line(self, case):
@@ -466,7 +667,14 @@ class Roundtrip(Component):
 
     def _run(self, case):
         m = _m()
-        chunk = build_chunk(case["chunk"])
+        if case.get("prev") is not None:
+            # the object has a past: it was built with other values and has been on the wire with them
+            chunk = build_chunk(case["prev"])
+            guard(lambda: m.serialize_packet(case["sp"], case["dp"], case["tag"], chunk), hx)
+            guard(lambda: bytes(chunk), hx)
+            assign_fields(chunk, case["chunk"])
+        else:
+            chunk = build_chunk(case["chunk"])
         ser = guard(lambda: m.serialize_packet(case["sp"], case["dp"], case["tag"], chunk), hx)
         if not ser.startswith("ok "):
             return ser, None, None
@@ -482,9 +690,18 @@ class Roundtrip(Component):
         if par.startswith("ok "):
             sp, dp, tag, chunks = box["r"]
             re = "+".join(guard(lambda c=c: m.serialize_packet(sp, dp, tag, c), hx) for c in chunks)
+            # hostile owner: every mutable part of what the parser returned (and of the sender's object) is modified,
+            # then the SAME bytes are parsed again: the result must not have changed
+            k = case.get("k", 1)
+            for c in chunks:
+                hostile_obj(c, k)
+            hostile_obj(chunk, k)
+            par2 = guard(lambda: m.parse_packet(data), show_parsed)
+            if par2 != par:
+                re += " => REPARSE " + par2
         return ser, par, re
 
-    def impl(self, case):
+    def _impl(self, case):
         ser, par, re = self._run(case)
         if par is None:
             return ser
@@ -498,14 +715,19 @@ class Roundtrip(Component):
                 return f"field out of wire range but serialize_packet gave {impl_out[:60]}"
             return None
         parts = impl_out.split(" => ")
-        if len(parts) != 3 or not parts[0].startswith("ok "):
-            return f"serialize_packet failed on in-range chunk: {impl_out[:80]}"
+        past = (" (the chunk object was serialised with other field values before: " + spec_str(case["prev"])[:80] + ")"
+                if case.get("prev") is not None else "")
+        if len(parts) not in (3, 4) or not parts[0].startswith("ok "):
+            return f"serialize_packet failed on in-range chunk: {impl_out[:80]}{past}"
         data = unhx(parts[0][3:])
         want = f"ok {case['sp']} {case['dp']} {case['tag']} {spec_str(spec)}"
         if parts[1] != want:
-            return f"parse_packet(serialize_packet(c)) = {parts[1][:200]} ≠ {want[:200]}"
+            return f"parse_packet(serialize_packet(c)) = {parts[1][:200]} ≠ {want[:200]}{past}"
         if parts[2] != parts[0]:
             return "re-serialising the parsed packet does not give identical bytes"
+        if len(parts) == 4:
+            return (f"parsing the same bytes again after the owner of the first result modified it (k={case.get('k', 1)}) "
+                    f"gives {parts[3][8:200]} ≠ {parts[1][:200]}")
         # structural facts of the wire image that do not depend on the parser
         if len(data) % 4 != 0:
             return f"serialised packet length {len(data)} is not a multiple of 4"
@@ -516,6 +738,11 @@ class Roundtrip(Component):
             return f"chunk length field {clen} / padding inconsistent with packet length {len(data)}"
         if data[12] != RFC_TYPE[spec["cls"]] or data[13] != spec["flags"]:
             return f"chunk type / flags byte wrong ({data[12]}, {data[13]}); RFC 4960/3758/6525 type of {spec['cls']} is {RFC_TYPE[spec['cls']]}"
+        ref = ref_packet(case["sp"], case["dp"], case["tag"], [spec])
+        if data != ref:
+            i = next((j for j in range(min(len(data), len(ref))) if data[j] != ref[j]), min(len(data), len(ref)))
+            return (f"serialize_packet(c) ({len(data)} bytes) is not the RFC wire image ({len(ref)} bytes) of the chunk's current "
+                    f"field values: first difference at byte {i}: …{hx(data[i:i + 12])} ≠ …{hx(ref[i:i + 12])}{past}")
         return None
 
     def label(self, case, impl_out):
@@ -531,20 +758,26 @@ class Roundtrip(Component):
             np_ = len(spec["params"])
             extra = ":np=" + (str(np_) if np_ < 4 else "4-8" if np_ <= 8 else "9+") + ":last%4=" + (
                 str(len(unhx(spec["params"][-1][1])) % 4) if spec["params"] else "-")
-        return spec["cls"] + ":ok:" + size + extra
+        return spec["cls"] + ":ok:" + size + extra + (":reused" if case.get("prev") is not None else "")
 
     def nontrivial(self, case, impl_out):
         return True
 
     def shrink(self, case):
-        out = [dict(case, chunk=s) for s in shrink_spec(case["chunk"])]
+        out = []
+        if case.get("prev") is not None:
+            out.append({k: v for k, v in case.items() if k != "prev"})
+            out += [dict(case, prev=s) for s in shrink_spec(case["prev"])]
+        if case.get("k", 1) > 3:
+            out += [dict(case, k=1), dict(case, k=2), dict(case, k=3)]
+        out += [dict(case, chunk=s) for s in shrink_spec(case["chunk"])]
         for k in ("sp", "dp", "tag"):
             if case[k]:
                 out.append(dict(case, **{k: 0}))
         return out
 
 
-class Params(Component):
+class Params(Isolated):
     name = "params"
     theorems = ["decode_encode_params", "decodeParams_total", "decodeParamsOrig_hang"]
 
@@ -573,6 +806,10 @@ class Params(Component):
             elif mode == 3:
                 b += rbytes(rng, rng.randrange(1, 6))
             out.append({"dec": hx(bytes(b))})
+        for c in out:
+            c["k"] = rng.randrange(1, 13)
+            if "enc" in c and rng.random() < 0.5:
+                c["prev"] = gen_params(rng)
         return out
 
     def model_line(self, case):
@@ -580,14 +817,40 @@ class Params(Component):
             return "sctpwire decparams " + case["dec"]
         return "sctpwire encparams " + (",".join(f"{t}/{v}" for t, v in case["enc"]) if case["enc"] else "-")
 
-    def impl(self, case):
+    def _impl(self, case):
         m = _m()
+        k = case.get("k", 1)
         if "dec" in case:
-            return guard(lambda: m.decode_params(unhx(case["dec"])), show_params)
-        return guard(lambda: m.encode_params([(t, unhx(v)) for t, v in case["enc"]]), hx)
+            # decode twice; the owner of the first list modifies it in between
+            body = unhx(case["dec"])
+            box = {}
+
+            def dec():
+                box["r"] = m.decode_params(body)
+                return box["r"]
+
+            first = guard(dec, show_params)
+            if "r" in box:
+                holder = type("Holder", (), {})()
+                holder.l = box["r"]
+                hostile_list_obj(holder, "l", k, _elem("param", hostile_elem("param", k)))
+            second = guard(lambda: m.decode_params(bytes(body)), show_params)
+            return first if second == first else first + " => AGAIN " + second
+        ps = [(t, unhx(v)) for t, v in case["enc"]]
+        if case.get("prev") is not None:
+            # the same list object was encoded with other contents before
+            live = [(t, unhx(v)) for t, v in case["prev"]]
+            guard(lambda: m.encode_params(live), hx)
+            live[:] = ps
+            ps = live
+        return guard(lambda: m.encode_params(ps), hx)
 
     def oracle(self, case, impl_out):
         m = _m()
+        if " => AGAIN " in impl_out:
+            first, second = impl_out.split(" => AGAIN ")
+            return (f"decode_params({case['dec'][:60]}) called again after the owner of the first list modified it "
+                    f"(k={case.get('k', 1)}) gives {second[:120]} ≠ {first[:120]}")
         if "dec" in case:
             if not (impl_out.startswith("ok ") or impl_out == "ValueError"):
                 return f"decode_params({case['dec'][:60]}) → {impl_out} (must return or raise ValueError)"
@@ -598,6 +861,8 @@ class Params(Component):
             return None if impl_out == "crash struct.error" else f"out-of-range parameter gave {impl_out[:40]}"
         if not impl_out.startswith("ok "):
             return f"encode_params failed: {impl_out}"
+        if unhx(impl_out[3:]) != ref_params(case["enc"]):
+            return f"encode_params(ps) = {impl_out[3:120]} is not the RFC 4960 §3.2.1 image {hx(ref_params(case['enc']))[:120]}"
         back = guard(lambda: m.decode_params(unhx(impl_out[3:])), show_params)
         if back != "ok " + show_params(ps):
             return f"decode_params(encode_params(ps)) = {back[:120]} ≠ {show_params(ps)[:120]}"
@@ -610,9 +875,13 @@ class Params(Component):
     def shrink(self, case):
         if "dec" in case:
             b = unhx(case["dec"])
-            return [{"dec": hx(x)} for x in (b[: len(b) // 2], b[4:], b[:-1], b[:-4]) if x != b]
+            return ([dict(case, k=j) for j in (1, 2, 3) if case.get("k", 1) > 3]
+                    + [dict(case, dec=hx(x)) for x in (b[: len(b) // 2], b[4:], b[:-1], b[:-4]) if x != b])
         l = case["enc"]
-        return [{"enc": x} for x in (l[: len(l) // 2], l[1:], l[:-1]) if x != l]
+        out = []
+        if case.get("prev") is not None:
+            out.append({k: v for k, v in case.items() if k != "prev"})
+        return out + [dict(case, enc=x) for x in (l[: len(l) // 2], l[1:], l[:-1]) if x != l]
 
 
 RC = {"out": ("StreamResetOutgoingParam", 13), "add": ("StreamAddOutgoingParam", 17), "resp": ("StreamResetResponseParam", 16)}
@@ -627,7 +896,74 @@ def rc_show(p) -> str:
     return f"resp:{p.response_sequence}:{p.result}"
 
 
-class Reconfig(Component):
+def rc_fields(s):
+    """rc string -> (kind, ints, streams)"""
+    f = s.split(":")
+    if f[0] == "out":
+        return "out", [int(f[1]), int(f[2]), int(f[3])], ([] if f[4] == "-" else [int(x) for x in f[4].split(",")])
+    return f[0], [int(f[1]), int(f[2])], None
+
+
+def rc_join(kind, ints, streams):
+    return f"{kind}:" + ":".join(str(x) for x in ints) + (":" + show_nats(streams) if kind == "out" else "")
+
+
+RC_ATTRS = {"out": [("request_sequence", 2**32), ("response_sequence", 2**32), ("last_tsn", 2**32)],
+            "add": [("request_sequence", 2**32), ("new_streams", 65536)],
+            "resp": [("response_sequence", 2**32), ("result", 2**32)]}
+RC_KIND = {"StreamResetOutgoingParam": "out", "StreamAddOutgoingParam": "add", "StreamResetResponseParam": "resp"}
+
+
+def rc_obj(s):
+    m = _m()
+    kind, ints, streams = rc_fields(s)
+    kw = {a: v for (a, _), v in zip(RC_ATTRS[kind], ints)}
+    if kind == "out":
+        kw["streams"] = list(streams)
+    return getattr(m, RC[kind][0])(**kw)
+
+
+def rc_assign(p, s):
+    """Overwrite every public field of the live parameter object (same class)."""
+    kind, ints, streams = rc_fields(s)
+    for (a, _), v in zip(RC_ATTRS[kind], ints):
+        setattr(p, a, v)
+    if kind == "out":
+        p.streams = list(streams)
+    return p
+
+
+def rc_in_range(s) -> bool:
+    kind, ints, streams = rc_fields(s)
+    return all(0 <= v < mod for (_, mod), v in zip(RC_ATTRS[kind], ints)) and all(0 <= x < 65536 for x in (streams or []))
+
+
+def ref_rc(s) -> bytes:
+    kind, ints, streams = rc_fields(s)
+    if kind == "out":
+        return struct.pack("!LLL", *ints) + b"".join(struct.pack("!H", x) for x in streams)
+    if kind == "add":
+        return struct.pack("!LHH", ints[0], ints[1], 0)
+    return struct.pack("!LL", *ints)
+
+
+def hostile_rc_spec(s, k):
+    kind, ints, streams = rc_fields(s)
+    ints = [(v + k) % mod for (_, mod), v in zip(RC_ATTRS[kind], ints)]
+    if kind == "out":
+        streams = hostile_list_spec(k, k % 65536, streams)
+    return rc_join(kind, ints, streams)
+
+
+def hostile_rc_obj(p, k):
+    kind = RC_KIND[type(p).__name__]
+    for a, mod in RC_ATTRS[kind]:
+        setattr(p, a, (getattr(p, a) + k) % mod)
+    if kind == "out":
+        hostile_list_obj(p, "streams", k, k % 65536)
+
+
+class Reconfig(Isolated):
     name = "reconfig"
     theorems = ["reconfig_roundtrip", "reconfig_parse_total"]
 
@@ -653,6 +989,12 @@ class Reconfig(Component):
                 out.append({"t": t, "d": hx(rbytes(rng, L))})
         for _ in range(n):
             out.append({"t": rng.choice([13, 16, 17, 13, 16, 17, 0, 12, 14, 15, 18]), "d": hx(rbytes(rng, rng.randrange(0, 40)))})
+        for i, c in enumerate(out):
+            c["k"] = rng.randrange(1, 13)
+            if "ser" in c and rng.random() < 0.6:
+                # the object was serialised with the values of another case of the same class before
+                others = [o["ser"] for o in out[:n] if o["ser"].split(":")[0] == c["ser"].split(":")[0]]
+                c["prev"] = rng.choice(others)
         return out
 
     def model_line(self, case):
@@ -660,29 +1002,39 @@ class Reconfig(Component):
             return "sctpwire rcser " + case["ser"]
         return f"sctpwire rcparse {case['t']} {case['d']}"
 
-    def _obj(self, s):
-        m = _m()
-        f = s.split(":")
-        if f[0] == "out":
-            return m.StreamResetOutgoingParam(request_sequence=int(f[1]), response_sequence=int(f[2]), last_tsn=int(f[3]),
-                                              streams=[] if f[4] == "-" else [int(x) for x in f[4].split(",")])
-        if f[0] == "add":
-            return m.StreamAddOutgoingParam(request_sequence=int(f[1]), new_streams=int(f[2]))
-        return m.StreamResetResponseParam(response_sequence=int(f[1]), result=int(f[2]))
-
-    def impl(self, case):
+    def _impl(self, case):
         m = _m()
         if "ser" in case:
-            p = self._obj(case["ser"])
+            if case.get("prev") is not None:
+                p = rc_obj(case["prev"])
+                guard(lambda: bytes(p), hx)
+                rc_assign(p, case["ser"])
+            else:
+                p = rc_obj(case["ser"])
             key = [k for k, cls in m.RECONFIG_PARAM_TYPES.items() if isinstance(p, cls)]
             return f"{key[0] if key else '?'} " + guard(lambda: bytes(p), hx)
         cls = m.RECONFIG_PARAM_TYPES.get(case["t"])
         if cls is None:
             return "none"
-        return guard(lambda: cls.parse(unhx(case["d"])), rc_show)
+        # parse twice; the owner of the first object modifies it in between
+        box = {}
+
+        def parse():
+            box["r"] = cls.parse(unhx(case["d"]))
+            return box["r"]
+
+        first = guard(parse, rc_show)
+        if "r" in box:
+            hostile_rc_obj(box["r"], case.get("k", 1))
+        second = guard(lambda: cls.parse(unhx(case["d"])), rc_show)
+        return first if second == first else first + " => AGAIN " + second
 
     def oracle(self, case, impl_out):
         m = _m()
+        if " => AGAIN " in impl_out:
+            first, second = impl_out.split(" => AGAIN ")
+            return (f"RECONFIG parameter {case['t']} parse({case['d'][:60]}) called again after the owner of the first object "
+                    f"modified it gives {second[:100]} ≠ {first[:100]}")
         if "ser" in case:
             f = case["ser"].split(":")
             nums = [int(x) for x in f[1:4] if x != "-" and "," not in x]
@@ -697,6 +1049,9 @@ class Reconfig(Component):
                 return None if rest == "crash struct.error" else f"out-of-range field gave {rest[:40]}"
             if not rest.startswith("ok "):
                 return f"bytes(param) failed: {rest}"
+            if unhx(rest[3:]) != ref_rc(case["ser"]):
+                return (f"bytes(param) = {rest[3:100]} is not the RFC 6525 image of the current field values {case['ser'][:80]}"
+                        + (f" (the object was serialised as {case['prev'][:80]} before)" if case.get("prev") else ""))
             back = guard(lambda: m.RECONFIG_PARAM_TYPES[int(t)].parse(unhx(rest[3:])), rc_show)
             if back != "ok " + case["ser"]:
                 return f"parse(bytes(p)) = {back[:100]} ≠ {case['ser'][:100]}"
@@ -714,6 +1069,8 @@ class Reconfig(Component):
         if "d" in case:
             b = unhx(case["d"])
             return [dict(case, d=hx(x)) for x in (b[: len(b) // 2], b[:-1]) if x != b]
+        if case.get("prev") is not None:
+            return [{k: v for k, v in case.items() if k != "prev"}]
         return []
 
 
@@ -722,7 +1079,7 @@ def chunk_bytes_raw(ty, flags, body, length=None):
     return struct.pack("!BBH", ty, flags, l & 0xFFFF) + body + bytes((-len(body)) % 4)
 
 
-class Parse(Component):
+class Parse(Isolated):
     name = "parse"
     theorems = ["parsePacket_total", "parsePacketOrig_struct_error", "parsePacketOrig_hang"]
 
@@ -803,6 +1160,8 @@ class Parse(Component):
             out.append({"d": hx(fix_crc(bytes(b)) if good else bytes(b))})
         for L in range(0, 20):
             out.append({"d": hx(rbytes(rng, L))})
+        for c in out:
+            c["k"] = rng.randrange(1, 13)
         return out
 
     def model_line(self, case):
@@ -818,11 +1177,22 @@ class Parse(Component):
 
         return guard(f, show_parsed), box.get("r")
 
-    def impl(self, case):
-        return self._parse(unhx(case["d"]))[0]
+    def _impl(self, case):
+        # every packet is parsed twice; in between a hostile owner modifies every mutable part of the first result
+        data = unhx(case["d"])
+        first, r = self._parse(data)
+        if r is not None:
+            for c in r[3]:
+                hostile_obj(c, case.get("k", 1))
+        second, _ = self._parse(data)
+        return first if second == first else first + " => REPARSE " + second
 
     def oracle(self, case, impl_out):
         data = unhx(case["d"])
+        if " => REPARSE " in impl_out:
+            first, second = impl_out.split(" => REPARSE ")
+            return (f"parsing the same {len(data)}-byte packet again after the owner of the first result modified it "
+                    f"(k={case.get('k', 1)}) gives {second[:200]} ≠ {first[:200]}")
         if not (impl_out.startswith("ok ") or impl_out == "ValueError"):
             return f"parse_packet → {impl_out} on a {len(data)}-byte packet (must return or raise ValueError)"
         crc_good = len(data) >= 16 and struct.unpack_from("<L", data, 8)[0] == crc_ref(data[:8] + b"\0\0\0\0" + data[12:])
@@ -863,7 +1233,10 @@ class Parse(Component):
             if b[i]:
                 out.append(fix_crc(b[:i] + b"\0" + b[i + 1:]))
         out.append(fix_crc(bytes(8) + b[8:]))
-        return [{"d": hx(x)} for x in out if x != b]
+        res = [dict(case, d=hx(x)) for x in out if x != b]
+        if case.get("k", 1) > 3:
+            res = [dict(case, k=1), dict(case, k=2), dict(case, k=3)] + res
+        return res
 
 
 # ---- bursts --------------------------------------------------------------------------------------------
@@ -1020,8 +1393,499 @@ class Burst(Component):
         return out
 
 
+# ---- operation sequences on a pool of live objects ------------------------------------------------------
+
+def spec_from_str(t: str):
+    """Inverse of chunk_str / spec_str."""
+    f = t.split(":")
+    name, flags = f[0], int(f[1])
+    ps = lambda x: [] if x == "-" else [[int(a.split("/")[0]), a.split("/")[1]] for a in x.split(",")]
+    pairs = lambda x: [] if x == "-" else [[int(a.split("/")[0]), int(a.split("/")[1])] for a in x.split(",")]
+    spec = {"cls": name, "flags": flags}
+    if name in PLAIN:
+        spec["body"] = f[2]
+    elif name in PARAMS:
+        spec["params"] = ps(f[2])
+    elif name == "DataChunk":
+        spec.update(tsn=int(f[2]), sid=int(f[3]), sseq=int(f[4]), proto=int(f[5]), ud=f[6])
+    elif name in INIT:
+        spec.update(tag=int(f[2]), rwnd=int(f[3]), outs=int(f[4]), ins=int(f[5]), itsn=int(f[6]), params=ps(f[7]))
+    elif name == "SackChunk":
+        spec.update(ctsn=int(f[2]), rwnd=int(f[3]), gaps=pairs(f[4]), dups=[] if f[5] == "-" else [int(x) for x in f[5].split(",")])
+    elif name == "ShutdownChunk":
+        spec["ctsn"] = int(f[2])
+    elif name == "ForwardTsnChunk":
+        spec.update(ctsn=int(f[2]), streams=pairs(f[3]))
+    else:
+        raise ValueError(name)
+    return spec
+
+
+def params_in_range(ps) -> bool:
+    return all(0 <= t < 65536 and len(unhx(v)) + 4 < 65536 for t, v in ps)
+
+
+def val_str(kind, v) -> str:
+    if kind == "C":
+        return spec_str(v)
+    if kind == "R":
+        return v
+    return ",".join(f"{t}/{x}" for t, x in v) if v else "-"
+
+
+def op_token(op) -> str:
+    k = op[0]
+    if k in ("new", "set"):
+        return f"{k}@{op[1]}@{op[2]}@{val_str(op[2], op[3])}"
+    if k == "parse":
+        return f"parse@{op[1]}@{op[2]}"
+    return "@".join(str(x) for x in op)
+
+
+def op_desc(op) -> str:
+    k = op[0]
+    if k in ("new", "set"):
+        what = "a fresh object in" if k == "new" else "overwrite every field of the live object in"
+        return f"{what} slot {op[1]} := {val_str(op[2], op[3])[:90]}"
+    if k == "hostile":
+        return f"owner modifies every mutable part of the object in slot {op[1]} (k={op[2]})"
+    if k == "ser":
+        return f"serialize_packet({op[2]}, {op[3]}, {op[4]}, slot {op[1]})"
+    if k == "bytes":
+        return f"bytes(slot {op[1]})"
+    if k == "parse":
+        return f"parse_packet({op[1][:48]}{'…' if len(op[1]) > 48 else ''}) -> slots {op[2]}.."
+    if k == "decparams":
+        return f"decode_params({op[1][:48]}) -> slot {op[2]}"
+    return f"RECONFIG_PARAM_TYPES[{op[1]}].parse({op[2][:48]}) -> slot {op[3]}"
+
+
+class Ops(Isolated):
+    """Sequences of create / overwrite / hostile-owner / serialise / parse steps on a pool of LIVE objects of the
+    library, compared step by step with the pure Lean model (Model/Sctp/WireOps.lean) and, in the oracle, with an
+    independent encoder and with the observations made earlier in the same sequence."""
+    name = "ops"
+    theorems = ["ops_reuse_roundtrip", "ops_ser_current_value", "ops_bytes_current_value", "ops_parse_pure",
+                "ops_reparse_same", "ops_parsed_slot_reserialize", "ops_hostile_then_ser"]
+    SLOTS = 4
+
+    def corpus(self):
+        hb = {"cls": "HeartbeatChunk", "flags": 0, "params": [[1, "0001"], [49152, "-"]]}
+        er = dict(hb, cls="ErrorChunk")
+        init = {"cls": "InitAckChunk", "flags": 0, "tag": 1, "rwnd": 2, "outs": 3, "ins": 4, "itsn": 5, "params": hb["params"]}
+        d1 = {"cls": "DataChunk", "flags": 3, "tsn": 1, "sid": 2, "sseq": 3, "proto": 51, "ud": "61"}
+        d2 = {"cls": "DataChunk", "flags": 7, "tsn": 2**32 - 1, "sid": 65535, "sseq": 0, "proto": 53, "ud": "616263"}
+        P = lambda specs, base: ["parse", hx(ref_packet(5000, 5001, 7, specs)), base, {"sp": 5000, "dp": 5001, "tag": 7, "specs": specs}]
+        return [
+            # parse, the owner appends to the parsed list, the same / a sibling packet arrives
+            {"ops": [P([hb], 0), ["hostile", 0, 1], P([hb], 1), ["ser", 1, 5000, 5001, 7], P([er], 2), P([init], 3),
+                     ["ser", 0, 5000, 5001, 7]]},
+            # one object, serialised, overwritten, serialised; two objects of one class interleaved
+            {"ops": [["new", 0, "C", d1], ["ser", 0, 1, 2, 3], ["set", 0, "C", d2], ["ser", 0, 1, 2, 3], ["new", 1, "C", d1],
+                     ["bytes", 1], ["bytes", 0], ["hostile", 1, 4], ["bytes", 1], ["bytes", 0]]},
+            {"ops": [["decparams", "0001000400020005aa000000", 0], ["hostile", 0, 1], ["decparams", "0001000400020005aa000000", 1],
+                     ["bytes", 1], ["bytes", 0]]},
+            {"ops": [["rcparse", 13, "000000010000000200000003000a000b", 0], ["hostile", 0, 1],
+                     ["rcparse", 13, "000000010000000200000003000a000b", 1], ["bytes", 1], ["bytes", 0],
+                     ["set", 0, "R", "out:9:8:7:1,2,3"], ["bytes", 0], ["new", 2, "R", "add:5:6"], ["bytes", 2],
+                     ["set", 2, "R", "add:7:8"], ["bytes", 2]]},
+        ]
+
+    # -- generation ------------------------------------------------------------------------------------------
+
+    def _gen_seq(self, rng, tier):
+        """A pool of at most SLOTS objects of one or two classes, values and packets drawn from a small per-sequence
+        set so that the same values / bytes recur in different objects and at different times."""
+        names = [rng.choice(ALL)]
+        x = rng.random()
+        if x < 0.25:
+            names = ["DataChunk"]
+        elif x < 0.45:
+            names = [rng.choice(PARAMS + INIT)]
+        if rng.random() < 0.4:
+            names.append(rng.choice(PARAMS + INIT) if names[0] in PARAMS + INIT else rng.choice(ALL))
+        specs = []
+        for _ in range(rng.randrange(2, 6)):
+            specs.append(gen_spec(rng, rng.choice(names), big=False, over=0.03))
+        # siblings: another class with byte-identical parameter body / the same values under another header
+        for sp_ in list(specs):
+            if "params" in sp_ and rng.random() < 0.6:
+                other = rng.choice(PARAMS + INIT)
+                sib = gen_spec(rng, other)
+                sib["params"] = sp_["params"]
+                specs.append(sib)
+        good = [x for x in specs if spec_in_range(x)]
+        packets = []
+        for _ in range(rng.randrange(1, 4)):
+            if not good:
+                break
+            sp, dp, tag = gen_header(rng)
+            chosen = [rng.choice(good) for _ in range(rng.choice([1, 1, 1, 2, 3]))]
+            data = ref_packet(sp, dp, tag, chosen)
+            if len(data) < 65536:
+                packets.append(["parse", hx(data), 0, {"sp": sp, "dp": dp, "tag": tag, "specs": chosen}])
+        if rng.random() < 0.2:
+            # a malformed / unknown-type packet as well (no note: only purity can be judged)
+            raw = struct.pack("!HHL", *gen_header(rng)) + b"\0\0\0\0" + chunk_bytes_raw(
+                rng.choice([0, 1, 3, 4, 6, 9, 130, 192, 99]), rng.randrange(256), rbytes(rng, rng.randrange(0, 24)))
+            packets.append(["parse", hx(fix_crc(raw)), 0, None])
+        rcs = []
+        for _ in range(2):
+            kind = rng.choice(["out", "add", "resp"])
+            if kind == "out":
+                rcs.append(rc_join("out", [pick(rng, B32, 2**32, .02) for _ in range(3)],
+                                   [pick(rng, B16, 65536) for _ in range(rng.choice([0, 1, 2, 5, rng.randrange(0, 40)]))]))
+            elif kind == "add":
+                rcs.append(rc_join("add", [pick(rng, B32, 2**32, .02), pick(rng, B16, 65536, .02)], None))
+            else:
+                rcs.append(rc_join("resp", [pick(rng, B32, 2**32, .02), pick(rng, B32, 2**32, .02)], None))
+        plists = [gen_params(rng)[:6] for _ in range(2)]
+        n = rng.randrange(4, 15 if tier == "quick" else 30)
+        ops = []
+        S = self.SLOTS
+        for _ in range(n):
+            x = rng.random()
+            s = rng.randrange(S)
+            if x < 0.16:
+                ops.append([rng.choice(["new", "set", "set"]), s, "C", rng.choice(specs)])
+            elif x < 0.30:
+                ops.append(["hostile", s, rng.randrange(1, 13)])
+            elif x < 0.50:
+                ops.append(["ser", s] + list(gen_header(rng, 0.02)))
+            elif x < 0.58:
+                ops.append(["bytes", s])
+            elif x < 0.80 and packets:
+                p_ = rng.choice(packets)
+                ops.append([p_[0], p_[1], rng.randrange(S), p_[3]])
+            elif x < 0.86:
+                ops.append([rng.choice(["new", "set", "set"]), s, "R", rng.choice(rcs)])
+            elif x < 0.90:
+                ops.append([rng.choice(["new", "set", "set"]), s, "P", rng.choice(plists)])
+            elif x < 0.95:
+                pl = rng.choice(plists)
+                ops.append(["decparams", hx(ref_params(pl)) if params_in_range(pl) else "00010004", s])
+            else:
+                r_ = rng.choice(rcs)
+                if rc_in_range(r_):
+                    ops.append(["rcparse", RC[r_.split(":")[0]][1], hx(ref_rc(r_)), s])
+                else:
+                    ops.append(["rcparse", rng.choice([13, 16, 17, 14]), hx(rbytes(rng, rng.randrange(0, 20))), s])
+        return ops
+
+    def _gen_sweep(self, rng, name):
+        """One object carries a sweep of values (the classic way of testing 'every user-data length'): new, ser,
+        then set / ser over and over; a second object of the class is interleaved."""
+        ops = [["new", 0, "C", gen_spec(rng, name)], ["ser", 0] + list(gen_header(rng))]
+        if rng.random() < 0.5:
+            ops += [["new", 1, "C", gen_spec(rng, name)], ["bytes", 1]]
+        for _ in range(rng.randrange(2, 7)):
+            sp_ = gen_spec(rng, name, over=0.03)
+            if name == "DataChunk" and rng.random() < 0.6:
+                sp_["ud"] = hx(rbytes(rng, rng.choice([0, 1, 2, 3, 4, 5, 1199, 1200, 1201, rng.randrange(0, 1300)])))
+            ops += [["set", rng.choice([0, 0, 1]), "C", sp_], [rng.choice(["ser", "ser", "bytes"]), 0]]
+            if ops[-1][0] == "ser":
+                ops[-1] += list(gen_header(rng))
+            if rng.random() < 0.4:
+                ops.append(["bytes", 1])
+        return ops
+
+    def _gen_reparse(self, rng, name):
+        """parse; hostile owner; parse the same bytes / a sibling with identical sub-body; re-serialise everything."""
+        sp_ = gen_spec(rng, name)
+        while not spec_in_range(sp_):
+            sp_ = gen_spec(rng, name)
+        sp, dp, tag = gen_header(rng)
+        P = lambda specs, base: ["parse", hx(ref_packet(sp, dp, tag, specs)), base, {"sp": sp, "dp": dp, "tag": tag, "specs": specs}]
+        sib = sp_
+        if "params" in sp_:
+            sib = gen_spec(rng, rng.choice(PARAMS + INIT))
+            sib["params"] = sp_["params"]
+            if not spec_in_range(sib):
+                sib = sp_
+        ops = [P([sp_], 0), ["hostile", 0, rng.randrange(1, 13)]]
+        if rng.random() < 0.5:
+            ops.append(["ser", 0, sp, dp, tag])
+        ops += [P([sib], 1), P([sp_], 2), ["ser", 2, sp, dp, tag], ["ser", 1, sp, dp, tag], P([sp_, sib], 2), ["bytes", 3]]
+        return ops
+
+    def _gen_rc(self, rng):
+        """RE-CONFIG parameter objects and parameter lists: serialise, overwrite, serialise; parse, modify, parse."""
+        def one(kind):
+            if kind == "out":
+                return rc_join("out", [pick(rng, B32, 2**32) for _ in range(3)],
+                               [pick(rng, B16, 65536) for _ in range(rng.choice([0, 1, 2, 5]))])
+            return rc_join(kind, [pick(rng, B32, 2**32), pick(rng, B16 if kind == "add" else B32, 65536 if kind == "add" else 2**32)], None)
+        kind = rng.choice(["out", "add", "resp"])
+        a, b, c = one(kind), one(kind), one(kind)
+        pl, pl2 = gen_params(rng)[:5], gen_params(rng)[:5]
+        ops = [["new", 0, "R", a], ["bytes", 0], ["new", 1, "R", b], ["set", 0, "R", c], ["bytes", 0], ["bytes", 1],
+               ["rcparse", RC[kind][1], hx(ref_rc(a)), 2], ["hostile", 2, rng.randrange(1, 13)], ["bytes", 2],
+               ["rcparse", RC[kind][1], hx(ref_rc(a)), 3], ["bytes", 3], ["hostile", 1, rng.randrange(1, 13)], ["bytes", 1]]
+        if params_in_range(pl) and params_in_range(pl2):
+            ops += [["new", 0, "P", pl], ["bytes", 0], ["set", 0, "P", pl2], ["bytes", 0], ["decparams", hx(ref_params(pl)), 1],
+                    ["hostile", 1, rng.randrange(1, 13)], ["decparams", hx(ref_params(pl)), 2], ["bytes", 2], ["bytes", 1]]
+        return ops
+
+    def cases(self, rng, tier):
+        out = []
+        reps = 1 if tier == "quick" else 8
+        for _ in range(reps):
+            for _ in range(12):
+                out.append({"ops": self._gen_rc(rng)})
+            for name in ALL:
+                for _ in range(4):
+                    out.append({"ops": self._gen_sweep(rng, name)})
+                    out.append({"ops": self._gen_reparse(rng, name)})
+            for _ in range(16):
+                out.append({"ops": self._gen_sweep(rng, "DataChunk")})
+        for _ in range(300 if tier == "quick" else 4000):
+            out.append({"ops": self._gen_seq(rng, tier)})
+        return out
+
+    def model_line(self, case):
+        return "sctpwire ops " + " ".join(op_token(op) for op in case["ops"])
+
+    # -- the real objects ----------------------------------------------------------------------------------
+
+    def _make(self, kind, v):
+        if kind == "C":
+            return build_chunk(v)
+        if kind == "R":
+            return rc_obj(v)
+        return [(t, unhx(x)) for t, x in v]
+
+    def _step(self, pool, op):
+        m = _m()
+        k = op[0]
+        if k in ("new", "set"):
+            s, kind, v = op[1], op[2], op[3]
+            cur = pool.get(s)
+            if k == "set" and cur is not None and cur[0] == kind:
+                if kind == "C" and type(cur[1]).__name__ == v["cls"]:
+                    assign_fields(cur[1], v)
+                    return "done"
+                if kind == "R" and RC_KIND.get(type(cur[1]).__name__) == v.split(":")[0]:
+                    rc_assign(cur[1], v)
+                    return "done"
+                if kind == "P" and isinstance(cur[1], list):
+                    cur[1][:] = [(t, unhx(x)) for t, x in v]
+                    return "done"
+            pool[s] = (kind, self._make(kind, v))
+            return "done"
+        if k == "hostile":
+            cur = pool.get(op[1])
+            if cur is None:
+                return "skip"
+            if cur[0] == "C":
+                hostile_obj(cur[1], op[2])
+            elif cur[0] == "R":
+                hostile_rc_obj(cur[1], op[2])
+            else:
+                holder = type("Holder", (), {})()
+                holder.l = cur[1]
+                hostile_list_obj(holder, "l", op[2], _elem("param", hostile_elem("param", op[2])))
+                pool[op[1]] = ("P", holder.l)
+            return "done"
+        if k == "ser":
+            cur = pool.get(op[1])
+            if cur is None or cur[0] != "C":
+                return "skip"
+            return guard(lambda: m.serialize_packet(op[2], op[3], op[4], cur[1]), hx)
+        if k == "bytes":
+            cur = pool.get(op[1])
+            if cur is None:
+                return "skip"
+            if cur[0] == "P":
+                return guard(lambda: m.encode_params(cur[1]), hx)
+            return guard(lambda: bytes(cur[1]), hx)
+        if k == "parse":
+            box = {}
+
+            def f():
+                box["r"] = m.parse_packet(unhx(op[1]))
+                return box["r"]
+
+            out = guard(f, show_parsed)
+            if out.startswith("ok "):
+                for i, c in enumerate(box["r"][3]):
+                    pool[op[2] + i] = ("C", c)
+            return out
+        if k == "decparams":
+            box = {}
+
+            def f():
+                box["r"] = m.decode_params(unhx(op[1]))
+                return box["r"]
+
+            out = guard(f, show_params)
+            if out.startswith("ok "):
+                pool[op[2]] = ("P", box["r"])
+            return out
+        if k == "rcparse":
+            cls = m.RECONFIG_PARAM_TYPES.get(op[1])
+            if cls is None:
+                return "none"
+            box = {}
+
+            def f():
+                box["r"] = cls.parse(unhx(op[2]))
+                return box["r"]
+
+            out = guard(f, rc_show)
+            if out.startswith("ok "):
+                pool[op[3]] = ("R", box["r"])
+            return out
+        raise ValueError("unknown op " + str(k))
+
+    def _impl(self, case):
+        pool = {}
+        return " ; ".join(self._step(pool, op) for op in case["ops"])
+
+    # -- the property on the implementation's observations ------------------------------------------------------
+
+    def _expect_bytes(self, kind, v):
+        if kind == "C":
+            return "ok " + hx(ref_chunk(v)) if spec_in_range(v) else "crash struct.error"
+        if kind == "R":
+            return "ok " + hx(ref_rc(v)) if rc_in_range(v) else "crash struct.error"
+        return "ok " + hx(ref_params(v)) if params_in_range(v) else "crash struct.error"
+
+    def oracle(self, case, impl_out):
+        ops = case["ops"]
+        outs = impl_out.split(" ; ")
+        if len(outs) != len(ops) or "HARNESS-EXC" in impl_out:
+            return None  # the harness could not drive the implementation: reported through the correspondence
+        mirror = {}
+        seen = {}
+        hist = lambda i: "; ".join(f"{j + 1}. {op_desc(ops[j])}" for j in range(i + 1))
+
+        def fail(i, msg):
+            return f"step {i + 1} of {len(ops)}: {msg}  [sequence: {hist(i)[:900]}]"
+
+        for i, (op, out) in enumerate(zip(ops, outs)):
+            k = op[0]
+            if k in ("new", "set"):
+                mirror[op[1]] = (op[2], op[3])
+            elif k == "hostile":
+                cur = mirror.get(op[1])
+                if cur is not None:
+                    if cur[0] == "C":
+                        mirror[op[1]] = ("C", hostile_spec(cur[1], op[2]))
+                    elif cur[0] == "R":
+                        mirror[op[1]] = ("R", hostile_rc_spec(cur[1], op[2]))
+                    else:
+                        mirror[op[1]] = ("P", hostile_list_spec(op[2], hostile_elem("param", op[2]), cur[1]))
+            elif k == "ser":
+                cur = mirror.get(op[1])
+                if cur is None or cur[0] != "C":
+                    continue
+                ok = header_in_range(op[2], op[3], op[4]) and spec_in_range(cur[1])
+                want = "ok " + hx(ref_packet(op[2], op[3], op[4], [cur[1]])) if ok else "crash struct.error"
+                if out != want:
+                    return fail(i, f"serialize_packet gave {out[:160]} but the object's fields are {spec_str(cur[1])[:160]} "
+                                   f"whose wire image is {want[:160]}")
+            elif k == "bytes":
+                cur = mirror.get(op[1])
+                if cur is None:
+                    continue
+                want = self._expect_bytes(*cur)
+                if out != want:
+                    return fail(i, f"bytes(obj) gave {out[:160]} but the object's fields are {val_str(*cur)[:160]} "
+                                   f"whose wire image is {want[:160]}")
+            else:
+                key = (k, op[1]) if k != "rcparse" else (k, op[1], op[2])
+                if key in seen and seen[key] != out:
+                    return fail(i, f"the same bytes were parsed before in this sequence and gave {seen[key][:200]}, now {out[:200]}")
+                seen[key] = out
+                if k == "parse":
+                    note = op[3]
+                    if note is not None and header_in_range(note["sp"], note["dp"], note["tag"]) and all(
+                            spec_in_range(x) for x in note["specs"]) and ref_packet(
+                            note["sp"], note["dp"], note["tag"], note["specs"]) == unhx(op[1]):
+                        want = f"ok {note['sp']} {note['dp']} {note['tag']} " + ("|".join(spec_str(x) for x in note["specs"]) or "-")
+                        if out != want:
+                            return fail(i, f"the packet is the wire image of {want[3:200]} but parse_packet gave {out[:200]}")
+                    if out.startswith("ok "):
+                        try:
+                            toks = out.split(" ")[4]
+                            parsed = [] if toks == "-" else [spec_from_str(t) for t in toks.split("|")]
+                        except Exception:
+                            return None
+                        for j, x in enumerate(parsed):
+                            mirror[op[2] + j] = ("C", x)
+                    elif out != "ValueError":
+                        return fail(i, f"parse_packet → {out} (must return or raise ValueError)")
+                elif k == "decparams":
+                    if out.startswith("ok "):
+                        t = out[3:]
+                        mirror[op[2]] = ("P", [] if t == "-" else [[int(a.split("/")[0]), a.split("/")[1]] for a in t.split(",")])
+                    elif out != "ValueError":
+                        return fail(i, f"decode_params → {out}")
+                else:
+                    if out.startswith("ok "):
+                        mirror[op[3]] = ("R", out[3:])
+                    elif out not in ("ValueError", "none"):
+                        return fail(i, f"parameter parse → {out}")
+        return None
+
+    def label(self, case, impl_out):
+        # the pattern that matters: was a slot serialised AFTER it had been overwritten / modified, were bytes parsed
+        # AFTER an earlier result had been modified?
+        reuse = reparse = False
+        touched = set()
+        for op in case["ops"]:
+            if op[0] in ("set", "hostile"):
+                touched.add(op[1])
+            elif op[0] in ("ser", "bytes") and op[1] in touched:
+                reuse = True
+            elif op[0] in ("parse", "decparams", "rcparse") and touched:
+                reparse = True
+        cls = sorted({op[3]["cls"] for op in case["ops"] if op[0] in ("new", "set") and op[2] == "C"}
+                     | {x["cls"] for op in case["ops"] if op[0] == "parse" and op[3] for x in op[3]["specs"]})
+        fam = cls[0] if len(cls) == 1 else "mixed" if cls else "other"
+        return fam + ":" + ("+".join(n for n, b in (("reuse", reuse), ("reparse", reparse)) if b) or "single")
+
+    def shrink(self, case):
+        ops = case["ops"]
+        out = []
+        n = len(ops)
+        if n > 2:
+            out.append({"ops": ops[: n // 2]})
+            out.append({"ops": ops[n // 2:]})
+        for i in range(n - 1, -1, -1):
+            out.append({"ops": ops[:i] + ops[i + 1:]})
+        for i, op in enumerate(ops):
+            if op[0] in ("new", "set") and op[2] == "C":
+                for s_ in shrink_spec(op[3]):
+                    out.append({"ops": ops[:i] + [[op[0], op[1], "C", s_]] + ops[i + 1:]})
+            elif op[0] == "set":
+                out.append({"ops": ops[:i] + [["new"] + op[1:]] + ops[i + 1:]})
+            elif op[0] == "hostile" and op[2] > 3:
+                for k in (1, 2, 3):
+                    out.append({"ops": ops[:i] + [["hostile", op[1], k]] + ops[i + 1:]})
+            elif op[0] == "ser" and (op[2] or op[3] or op[4]):
+                out.append({"ops": ops[:i] + [["ser", op[1], 0, 0, 0]] + ops[i + 1:]})
+            elif op[0] == "parse" and op[3] is not None:
+                note = op[3]
+                cands = []
+                if len(note["specs"]) > 1:
+                    for j in range(len(note["specs"])):
+                        cands.append(note["specs"][:j] + note["specs"][j + 1:])
+                for j, x in enumerate(note["specs"]):
+                    for s_ in shrink_spec(x):
+                        cands.append(note["specs"][:j] + [s_] + note["specs"][j + 1:])
+                for specs in cands:
+                    if not all(spec_in_range(x) for x in specs):
+                        continue
+                    nn = dict(note, specs=specs)
+                    nd = hx(ref_packet(note["sp"], note["dp"], note["tag"], specs))
+                    # every parse of these bytes in the sequence is replaced consistently
+                    out.append({"ops": [[o[0], nd, o[2], nn] if (o[0] == "parse" and o[1] == op[1]) else o for o in ops]})
+        return out
+
+
 def components(tier):
-    return [Crc(), Roundtrip(), Params(), Reconfig(), Parse(), Burst()]
+    return [Crc(), Roundtrip(), Params(), Reconfig(), Parse(), Ops(), Burst()]
 
 
 def classify_finding(finding, comp_name, case, what):
